@@ -18,10 +18,10 @@ _CACHE = {}
 
 SRO_TYPES = {"relationship", "sighting"}
 META_TYPES = {"bundle", "marking-definition", "language-content", "extension-definition"}
-UUID_RE = re.compile(r"^[0-9a-fA-F]{8}-[0-9a-fA-F]{4}-([0-9a-fA-F])[0-9a-fA-F]{3}-([0-9a-fA-F])[0-9a-fA-F]{3}-[0-9a-fA-F]{12}$")
-TYPE_RE = re.compile(r"^[a-z0-9-]{3,250}$")
-DICT_KEY_RE = re.compile(r"^[a-zA-Z0-9_-]+$")
-HEX_RE = re.compile(r"^([a-fA-F0-9]{2})+$")
+UUID_RE = re.compile(r"^[0-9a-fA-F]{8}-[0-9a-fA-F]{4}-([0-9a-fA-F])[0-9a-fA-F]{3}-([0-9a-fA-F])[0-9a-fA-F]{3}-[0-9a-fA-F]{12}\Z")
+TYPE_RE = re.compile(r"^[a-z0-9-]{3,250}\Z")
+DICT_KEY_RE = re.compile(r"^[a-zA-Z0-9_-]+\Z")
+HEX_RE = re.compile(r"^([a-fA-F0-9]{2})+\Z")
 HASH_LEN = {"MD5": 32, "SHA-1": 40, "SHA-224": 56, "SHA-256": 64, "SHA-384": 96, "SHA-512": 128, "SHA3-224": 56, "SHA3-256": 64, "SHA3-384": 96,
             "SHA3-512": 128, "RIPEMD-160": 40, "WHIRLPOOL": 128}
 TLP = {
@@ -126,7 +126,7 @@ class V(object):
         if k in ("string", "openvocab", "pattern", "selector"):
             if not isinstance(v, str):
                 return self.add(path, "kind", "not a string")
-            if k == "selector" and not re.match(r"^([a-z0-9_-]{3,250}(\.(\[\d+\]|[a-z0-9_-]{1,250}))*|id)$", v):
+            if k == "selector" and not re.match(r"^([a-z0-9_-]{3,250}(\.(\[\d+\]|[a-z0-9_-]{1,250}))*|id)\Z", v):
                 self.add(path, "selector-syntax", "selector does not follow the selector syntax")
             return
         if k == "enum":
@@ -197,7 +197,7 @@ class V(object):
                     self.add("%s.%s" % (path, hk), "hash-algorithm", "not in the version's hash-algorithm vocabulary")
                 if not isinstance(hv, str) or not hv:
                     self.add("%s.%s" % (path, hk), "hash-value", "hash value is not a non-empty string")
-                elif hk in HASH_LEN and not re.match(r"^[0-9a-fA-F]{%d}$" % HASH_LEN[hk], hv):
+                elif hk in HASH_LEN and not re.match(r"^[0-9a-fA-F]{%d}\Z" % HASH_LEN[hk], hv):
                     self.add("%s.%s" % (path, hk), "hash-value", "not a %s value" % hk)
             return
         if k == "ref":
